@@ -218,6 +218,27 @@ func streamTotal(g *core.G) {
 				flush()
 			}
 		}
+		if ep.Op == "archparse" {
+			for _, n := range archNames {
+				g.Emit("law-archrt", core.Hex(n))
+			}
+		}
+		// the accessors of index paragraphs parse relationship fields on demand: a malformed
+		// field must give the empty value, not a panic (law-accessors calls every accessor)
+		if strings.HasSuffix(ep.Name, "Index") {
+			kind := strings.TrimPrefix(ep.Name, "control.Parse")
+			for i := g.N(40, 1500); i > 0; i-- {
+				bad := r.Pick([]string{"libc6 (>= 2.14", "foo [amd64 !i386]", "foo bar", "${misc:Depends", "foo (>> 1) (<< 2)", "a |", ", ,", "foo <!a b", "foo:", "x (== 1)"})
+				if r.Chance(1, 3) {
+					bad = mutateRaw(r, renderDep(r, genDepAST(r), r.Intn(4)))
+				}
+				text := "Package: p\nVersion: 1\nArchitecture: all\nDepends: " + bad + "\nPre-Depends: " + bad + "\nConflicts: " + bad + "\nBuilt-Using: " + bad + "\n"
+				if kind == "SourceIndex" {
+					text = "Package: p\nVersion: 1\nBinary: p\nBuild-Depends: " + bad + "\nBuild-Depends-Indep: " + bad + "\nBuild-Depends-Arch: " + bad + "\n"
+				}
+				g.Emit("law-accessors", kind, core.Hex(text))
+			}
+		}
 		// large inputs (4 KiB and 64 KiB)
 		for i := g.N(2, 12); i > 0; i-- {
 			emitTotal(g, ep, bigInput(r, ep.Seed(r)), &batch)
